@@ -85,6 +85,8 @@ def judge(o, go, m):
         return known or "violation", "marshaled value differs: real package %s, model %r" % (go["text"][:300], mval)
     if not go.get("stable"):
         return "violation", "Marshal is not deterministic (bytes differ between calls)"
+    if go.get("escape_equal") is False:
+        return known or "violation", "the same document with \\uXXXX escapes in its strings is read as another schema: %s" % str(go.get("escape_detail"))[:200]
     # the round trip, observed on the real package
     if go.get("rt") != "ok":
         return known or "violation", "Unmarshal(Marshal(s)) fails: %s %s" % (go.get("rt"), go.get("rt_detail"))
